@@ -8,7 +8,11 @@
    a spline evaluator through to_dict/from_dict or dump/load; a whole mapped model through
    yaml.dump / joblib.dump and load_cider_model(fname, fmt), whose format is given or inferred
    from the file suffix.  A dict-coded artifact names classes by CODE (the registry decides what
-   is rebuilt); a whole-model file carries Python class identity itself. *)
+   is rebuilt); a whole-model file carries Python class identity itself.
+   An ANALYZER (ciderpress/pyscf/analyzers.py: the object that carries a converged calculation, its grid level and
+   stored grid data to the training side) goes through as_dict/from_dict ("dict") or dump/load (hdf5, "yaml" slot of the
+   coded formats); its code is the calculation type ("RHF"/"UHF", aliases "RKS"/"UKS"), its shape the class together with
+   the grid level it was built with (levels 0..3: 0 is a legal level). *)
 EXTENDS Integers, Sequences, FiniteSets, TLC
 CONSTANTS Classes,     \* names of the registered feature-map classes
           RegCodes,    \* DOMAIN of the registry (strings; "None" for a class without code)
@@ -16,6 +20,11 @@ CONSTANTS Classes,     \* names of the registered feature-map classes
           Writes,      \* [Classes -> STRING]
           SplineShapes,\* index layouts of a spline-set evaluator (which features each term reads, IN WHICH ORDER): the order
                        \* pairs feature columns with spline axes, so it is part of the object's identity
+          AnalyzerShapes, \* "RHFAnalyzer@<grid level>", "UHFAnalyzer@<grid level>"
+          AWrites,        \* [AnalyzerShapes -> code written by as_dict]
+          AReg,           \* [analyzer codes accepted by from_dict -> "R" | "U"]   (aliases map to the same family)
+          AFamily,        \* [AnalyzerShapes -> "R" | "U"]
+          AAlias,         \* [written codes -> the alias of the same family]
           MaxCycles
 
 VARIABLES obj,   \* the live object: [kind, cls, ver] | Error | None   (ver: which parameter set it carries)
@@ -44,20 +53,30 @@ Renew == /\ obj # None /\ obj # Error /\ LastOp \in {"load", "loadmodel"} /\ ncy
 
 \* FeatureList.as_dict / dump ; SplineSetEvaluator.to_dict / dump
 DumpCoded(fmt) ==
-  /\ obj # None /\ obj # Error /\ obj.kind \in {"list", "spline"} /\ fmt \in ListFmts /\ ncyc < MaxCycles /\ FreshObj
+  /\ obj # None /\ obj # Error /\ obj.kind \in {"list", "spline", "analyzer"} /\ fmt \in ListFmts /\ ncyc < MaxCycles /\ FreshObj
   /\ file' = [kind |-> obj.kind, fmt |-> fmt, cls |-> obj.cls,
-              code |-> IF obj.kind = "list" THEN Writes[obj.cls] ELSE "spline", suffix |-> Suffix(fmt), ver |-> obj.ver]
+              code |-> IF obj.kind = "list" THEN Writes[obj.cls] ELSE IF obj.kind = "analyzer" THEN AWrites[obj.cls] ELSE "spline",
+              suffix |-> Suffix(fmt), ver |-> obj.ver]
   /\ hist' = Append(hist, <<"dump", fmt>>) /\ UNCHANGED <<obj, ncyc>>
 \* FeatureNormalizer.from_dict: dispatch on the code through the registry
 LoadCoded ==
-  /\ file # None /\ file.kind \in {"list", "spline"} /\ LastOp \in {"dump", "corrupt"}
+  /\ file # None /\ file.kind \in {"list", "spline", "analyzer"} /\ LastOp \in {"dump", "corrupt", "alias"}
   /\ obj' = IF file.kind = "spline" THEN [kind |-> "spline", cls |-> file.cls, ver |-> file.ver]
+            \* ElectronAnalyzer.from_dict: the code selects the class family; everything else (grid level, stored data) is read back
+            ELSE IF file.kind = "analyzer"
+                 THEN (IF file.code \in DOMAIN AReg /\ AReg[file.code] = AFamily[file.cls]
+                       THEN [kind |-> "analyzer", cls |-> file.cls, ver |-> file.ver] ELSE Error)
             ELSE IF file.code \in RegCodes THEN [kind |-> "list", cls |-> Reg[file.code], ver |-> file.ver] ELSE Error
   /\ ncyc' = ncyc + 1 /\ hist' = Append(hist, <<"load">>) /\ UNCHANGED file
 \* a hand-edited / foreign file with a code nobody registered
-Corrupt == /\ file # None /\ file.kind = "list" /\ file.code # "Bogus" /\ LastOp = "dump"
+Corrupt == /\ file # None /\ file.kind \in {"list", "analyzer"} /\ file.code # "Bogus" /\ LastOp = "dump"
            /\ file' = [file EXCEPT !.code = "Bogus"] /\ hist' = Append(hist, <<"corrupt">>)
            /\ UNCHANGED <<obj, ncyc>>
+
+\* the same calculation type under its other name (a file written by a Kohn-Sham run: "RKS" / "UKS")
+Alias == /\ file # None /\ file.kind = "analyzer" /\ file.code \in DOMAIN AAlias /\ LastOp = "dump"
+         /\ file' = [file EXCEPT !.code = AAlias[file.code]] /\ hist' = Append(hist, <<"alias">>)
+         /\ UNCHANGED <<obj, ncyc>>
 
 \* whole models: yaml.dump(model) / joblib.dump(model) to a file with any suffix
 DumpModel(fmt, sfx) ==
@@ -79,8 +98,9 @@ LoadModel(fmt) ==
 
 Next == \/ \E k \in {"list", "model"}, c \in Classes : Make(k, c)
         \/ \E sh \in SplineShapes : Make("spline", sh)
+        \/ \E sh \in AnalyzerShapes : Make("analyzer", sh)
         \/ \E f \in ListFmts : DumpCoded(f)
-        \/ LoadCoded \/ Corrupt \/ Renew
+        \/ LoadCoded \/ Corrupt \/ Alias \/ Renew
         \/ \E f \in ModelFmts, s \in Suffixes : DumpModel(f, s)
         \/ \E f \in LoadFmts : LoadModel(f)
 Spec == Init /\ [][Next]_vars
@@ -92,7 +112,9 @@ RegistryConsistent == \A c \in Classes : Writes[c] \in RegCodes /\ Reg[Writes[c]
 RoundTrip == [][(LoadCoded \/ \E f \in LoadFmts : LoadModel(f)) =>
                  (obj' # Error => obj'.cls = file.cls /\ obj'.ver = file.ver)]_vars
 \* unknown codes and unsupported / mismatching formats never produce an object
-UnknownCodeRejected == [][(LoadCoded /\ file.kind = "list" /\ file.code \notin RegCodes) => obj' = Error]_vars
+UnknownCodeRejected == [][(LoadCoded /\ ((file.kind = "list" /\ file.code \notin RegCodes) \/ (file.kind = "analyzer" /\ file.code \notin DOMAIN AReg))) => obj' = Error]_vars
+\* an analyzer file under either name of its calculation type loads
+AliasLoads == [][(LoadCoded /\ file.kind = "analyzer" /\ file.code \in DOMAIN AReg /\ AReg[file.code] = AFamily[file.cls]) => obj' # Error]_vars
 BadFormatRejected == [][\A f \in LoadFmts : (LoadModel(f) /\ Resolved(f, file.suffix) # file.fmt) => obj' = Error]_vars
 \* loading what a coded dump of a sound object wrote never fails
 SoundLoadSucceeds == [][(LoadCoded /\ file.kind = "list" /\ file.code = Writes[file.cls]) => obj' # Error]_vars
